@@ -61,6 +61,10 @@ def replay_scenarios(ctx, probe, scs, rng, driver="binary", workers=None):
     for sc in scs:
         env, argv = gen_cfg.concretise(sc, rng)
         jobs.append((sc, env, argv))
+        if sc["env"]["scan"] in ("true", "false") and sc["argv"]["scan"] == "absent":
+            # the boolean spellings are case-insensitive: also a mixed-case spelling of the same class
+            env2, argv2 = gen_cfg.concretise(sc, rng, force_mixed=True)
+            jobs.append((sc, env2, argv2))
 
     def one(j):
         sc, env, argv = j
